@@ -106,6 +106,19 @@ iface indexer.Time
                                         && (forall i :: 0 <= i && i < k ==> ixItems(self)[i].Timestamp < ts))
     ensures[errs]   err == nil || err == index.ErrTimeIndexEmpty || err == index.ErrTimeBeforeStart || err == index.ErrTimeAfterEnd
 
+// I8 (key tree consistent with the items) is ASSUMED at this interface: the candidates of a hash
+// are exactly the positions of the items carrying that hash, in ascending order
+iface indexer.Keys
+    requires ixWf(self)
+    ensures[errs]      err == nil || err == index.ErrKeyNotFound
+    ensures[notfound]  (forall k :: 0 <= k && k < len(ixItems(self)) ==> ixItems(self)[k].KeyHash != decodeHash(bseq(hash))) ==> err == index.ErrKeyNotFound
+    ensures[found]     (exists k :: 0 <= k && k < len(ixItems(self)) && ixItems(self)[k].KeyHash == decodeHash(bseq(hash))) ==> err == nil
+    ensures[sound]     err == nil ==> forall j :: 0 <= j && j < len(ret0) ==>
+                           (exists k :: 0 <= k && k < len(ixItems(self)) && ixItems(self)[k].Position == ret0[j] && ixItems(self)[k].KeyHash == decodeHash(bseq(hash)))
+    ensures[complete]  err == nil ==> forall k :: 0 <= k && k < len(ixItems(self)) && ixItems(self)[k].KeyHash == decodeHash(bseq(hash)) ==>
+                           (exists j :: 0 <= j && j < len(ret0) && ret0[j] == ixItems(self)[k].Position)
+    ensures[ascending] err == nil ==> forall i, j :: 0 <= i && i < j && j < len(ret0) ==> ret0[i] < ret0[j]
+
 func (*readerIndex).GetNextOffset
     refines indexer.GetNextOffset
     ensures err == nil && ret0 == ix.nextOffset
@@ -792,5 +805,70 @@ lemma deletesKeepLatest(l Log, s map[int64]struct{}, o int64)
     requires forall q int64, p int64 :: has(s, q) && gLive[l][p] && p < q ==> gKey[l][p] != gKey[l][q]
     requires has(s, o) && gLive[l][o] && (forall p int64 :: gLive[l][p] && gKey[l][p] == gKey[l][o] ==> p <= o)
     ensures  !gHasValue[l][o] && (forall p int64 :: gLive[l][p] && gKey[l][p] == gKey[l][o] ==> p == o)
+
+
+// ================================================================ key lookups (C09)
+
+// record k of file f carries exactly the key (content equality; nil and empty are the same sequence)
+pred recHasKey(f int, k int, key []byte) := recKey(f, k) == bseq(key)
+
+func (*reader).GetByKey
+    requires rdWf(r) && r.params.Keys
+    requires[hash] decodeHash(bseq(keyHash)) == keyHash(bseq(key))
+    assigns r.index, r.indexLastAccess, r.messages, r.messagesInuse
+    ensures[wf]       rdWf(r)
+    // the LAST record of the segment whose key is byte-for-byte the argument, also under hash collisions
+    ensures[found]    err == nil ==> (exists k :: 0 <= k && k < len(r.gitems) && isRec(ret0, r.gfile, k) && ret0.Offset == r.gitems[k].Offset
+                                        && recHasKey(r.gfile, k, key)
+                                        && (forall m :: k < m && m < len(r.gitems) ==> !recHasKey(r.gfile, m, key)))
+    ensures[samekey]  err == nil ==> bseq(ret0.Key) == bseq(key)
+    ensures[notfound] (forall k :: 0 <= k && k < len(r.gitems) ==> !recHasKey(r.gfile, k, key)) ==> err == index.ErrKeyNotFound || ioerr(err)
+    ensures[present]  (exists k :: 0 <= k && k < len(r.gitems) && recHasKey(r.gfile, k, key)) ==> err == nil || ioerr(err)
+    ensures[errs]     err == nil || err == index.ErrKeyNotFound || ioerr(err)
+    ensures[failed]   err != nil ==> ret0 == message.Invalid
+    loop 1
+      invariant[range]  -1 <= i && i < len(positions)
+      invariant[state]  messages != nil && messages.gfile == r.gfile && rdWf(r)
+      // every candidate is the start of a record; every record carrying the key is among the candidates
+      invariant[cands]  forall j :: 0 <= j && j < len(positions) ==> atRec(r.gfile, positions[j])
+      invariant[asc]    forall a, b :: 0 <= a && a < b && b < len(positions) ==> positions[a] < positions[b]
+      invariant[all]    forall k :: 0 <= k && k < len(r.gitems) && recHasKey(r.gfile, k, key) ==>
+                            (exists j :: 0 <= j && j < len(positions) && positions[j] == recPos(r.gfile, k))
+      // no candidate after i carries the key
+      invariant[later]  forall j :: i < j && j < len(positions) ==> recKey(r.gfile, recIdx(r.gfile, positions[j])) != bseq(key)
+      decreases i + 1
+
+// o is a live offset whose message carries exactly the key
+pred liveKey(l *log, key []byte, o int64) :=
+    exists i, k :: 0 <= i && i < len(l.readers) && 0 <= k && k < len(l.readers[i].gitems)
+        && l.readers[i].gitems[k].Offset == o && recHasKey(l.readers[i].gfile, k, key)
+
+pred noKeyIn(r *reader, key []byte) := forall k :: 0 <= k && k < len(r.gitems) ==> !recHasKey(r.gfile, k, key)
+
+func (*log).GetByKey
+    requires logWf(l) && (forall i :: 0 <= i && i < len(l.readers) ==> l.readers[i].params.Keys == l.opts.KeyIndex)
+    assigns reader.index, reader.indexLastAccess, reader.messages, reader.messagesInuse
+    ensures[wf]       logWf(l)
+    ensures[noindex]  !l.opts.KeyIndex ==> is(err, ErrNoIndex)
+    // the live message with the GREATEST offset whose key equals the argument
+    ensures[hit]      l.opts.KeyIndex && err == nil ==> liveKey(l, key, ret0.Offset) && bseq(ret0.Key) == bseq(key)
+    ensures[greatest] l.opts.KeyIndex && err == nil ==> forall o int64 :: liveKey(l, key, o) ==> o <= ret0.Offset
+    ensures[notfound] l.opts.KeyIndex && (forall i :: 0 <= i && i < len(l.readers) ==> noKeyIn(l.readers[i], key)) ==>
+                          err != nil && (is(err, message.ErrNotFound) || ioerr(err))
+    ensures[present]  l.opts.KeyIndex && (exists o int64 :: liveKey(l, key, o)) ==> err == nil || ioerr(err)
+    loop 1
+      invariant[range]  -1 <= i && i <= len(l.readers) - 1
+      invariant[wf]     logWf(l) && l.opts.KeyIndex && (forall j :: 0 <= j && j < len(l.readers) ==> l.readers[j].params.Keys)
+      invariant[hash]   decodeHash(bseq(hash)) == keyHash(bseq(key))
+      invariant[newer]  forall j :: i < j && j < len(l.readers) ==> noKeyIn(l.readers[j], key)
+      decreases i + 1
+
+func (*log).OffsetByKey
+    requires logWf(l) && (forall i :: 0 <= i && i < len(l.readers) ==> l.readers[i].params.Keys == l.opts.KeyIndex)
+    assigns reader.index, reader.indexLastAccess, reader.messages, reader.messagesInuse
+    ensures[wf]       logWf(l)
+    ensures[noindex]  !l.opts.KeyIndex ==> is(err, ErrNoIndex)
+    ensures[hit]      l.opts.KeyIndex && err == nil ==> liveKey(l, key, ret0)
+    ensures[greatest] l.opts.KeyIndex && err == nil ==> forall o int64 :: liveKey(l, key, o) ==> o <= ret0
 
 @*/
